@@ -3,6 +3,7 @@ package solver
 
 import (
 	"bufio"
+	"crypto/sha256"
 	"fmt"
 	"io"
 	"os"
@@ -50,7 +51,7 @@ type Solver struct {
 	cmd      *exec.Cmd
 	in       io.WriteCloser
 	out      *bufio.Reader
-	cache    map[string]*cached
+	cache    map[[16]byte]*cached
 	Stats    Stats
 	defined  map[string]bool
 	ctx      *sym.Ctx
@@ -76,7 +77,7 @@ func New(kind string, ctx *sym.Ctx, timeoutMs int) (*Solver, error) {
 	default:
 		return nil, fmt.Errorf("unknown solver %q", kind)
 	}
-	s := &Solver{Name: kind, cache: map[string]*cached{}, defined: map[string]bool{}, ctx: ctx, argv: argv, preamble: pre, check: check}
+	s := &Solver{Name: kind, cache: map[[16]byte]*cached{}, defined: map[string]bool{}, ctx: ctx, argv: argv, preamble: pre, check: check}
 	if err := s.start(); err != nil {
 		return nil, err
 	}
@@ -163,7 +164,8 @@ func (s *Solver) readSexp() (string, error) {
 func (s *Solver) Check(asserts []*sym.Term, wantModel bool) (Result, map[*sym.Term]uint64, error) {
 	q := sym.BuildQuery(asserts)
 	s.Stats.Queries++
-	if c, ok := s.lookup(q.Text); ok && (!wantModel || c.res != Sat || c.has) {
+	key := textKey(s.Name, q.Text)
+	if c, ok := s.lookup(key); ok && (!wantModel || c.res != Sat || c.has) {
 		s.Stats.CacheHits++
 		var m map[*sym.Term]uint64
 		if wantModel && c.res == Sat {
@@ -269,8 +271,8 @@ func (s *Solver) Check(asserts []*sym.Term, wantModel bool) (Result, map[*sym.Te
 		s.dead = true
 	}
 	if res != Unknown {
-		s.cache[q.Text] = c
-		shared.Store(s.Name+"|"+q.Text, c)
+		s.cache[key] = c
+		shared.Store(key, c)
 	}
 	return res, m, nil
 }
@@ -278,13 +280,25 @@ func (s *Solver) Check(asserts []*sym.Term, wantModel bool) (Result, map[*sym.Te
 // shared is the cross-worker query cache (queries are α-canonical text).
 var shared sync.Map
 
-func (s *Solver) lookup(text string) (*cached, bool) {
-	if c, ok := s.cache[text]; ok {
+// textKey: queries are cached under a 128-bit hash of (solver, canonical text);
+// keeping the texts themselves made long runs use tens of gigabytes.
+func textKey(solverName, text string) [16]byte {
+	h := sha256.New()
+	h.Write([]byte(solverName))
+	h.Write([]byte{0})
+	h.Write([]byte(text))
+	var k [16]byte
+	copy(k[:], h.Sum(nil))
+	return k
+}
+
+func (s *Solver) lookup(key [16]byte) (*cached, bool) {
+	if c, ok := s.cache[key]; ok {
 		return c, true
 	}
-	if v, ok := shared.Load(s.Name + "|" + text); ok {
+	if v, ok := shared.Load(key); ok {
 		c := v.(*cached)
-		s.cache[text] = c
+		s.cache[key] = c
 		return c, true
 	}
 	return nil, false
